@@ -15,7 +15,10 @@
 use data_encoding::{Encoding, HEXLOWER_PERMISSIVE};
 use std::path::PathBuf;
 use std::time::Duration;
+#[cfg(not(roughenough_verif))]
 use std::{env, thread};
+#[cfg(roughenough_verif)]
+use verif_std::{env, thread};
 
 use crate::config::ServerConfig;
 use crate::config::{DEFAULT_BATCH_SIZE, DEFAULT_STATUS_INTERVAL};
